@@ -119,6 +119,22 @@ CLAIMED["C18"] = {
     "design_ref": "DESIGN.md section 8, C18",
 }
 
+CLAIMED["C06"] = {
+    "text": "Theorems C06_isolated (for EVERY packet sequence and configuration the dispatcher's id table / position lookup / push-on-miss "
+            "bookkeeping hands each validator exactly the packets of its own dispatch id -- link id, FEE id in stave mode -- in arrival "
+            "order, and the result for an id is one sequential pass over those packets alone), C06_alone, C06_independent (same own packet "
+            "sequence => same reported result, whatever the other links carry and however they are interleaved) and C06_extraction (the "
+            "id's packets stored alone) are proved by an invariant over the dispatcher fold. PARTIAL: that validators use packet offsets "
+            "only as labels (re-basing between layouts) is not proved; it is decided on every run by the layout comparison. Tied to the "
+            "code by the real ValidatorDispatcher (threads) on contiguous / round-robin / random merges against one sequential "
+            "LinkValidator per link (messages re-based to packet index + delta), and by the binary on merged vs filtered vs extracted files.",
+    "note": "Trusted: Coq kernel; harness; the rebuilt binary; extraction + driver; message canonicalisation and the attribution of a message "
+            "to a link through the byte range of its offset. Thread scheduling inside the real dispatcher is whatever the OS does during the run "
+            "(C05 treats schedules).",
+    "technique": "Coq proof (invariant over the dispatcher's fold: NoDup id table, channel i = filter id_i) + differential correspondence across layouts; re-basing checked, not proved",
+    "design_ref": "DESIGN.md section 8, C06",
+}
+
 ALL = ["C%02d" % i for i in range(1, 21)]
 PENDING_REASON = "not claimed yet: the model/proof for this property is still under construction in this development (see DESIGN.md section 12 build order); no check is registered until its theorem file compiles without admits and its correspondence stream runs"
 
